@@ -154,7 +154,7 @@ func main() {
 		return
 	}
 	rep := report.New("C10", tier, "model_checking")
-	rep.Rule = "E2 (stateless, no dedup: closure-captured state cannot be fingerprinted): ALL sequences of up to 4 (thorough 5) operations Build(i,j) / Call(slot, point) over two sets of 5 (6) spatial references parsed once per sequence (set A: 7-parameter tmerc/OSGB36, 3-parameter lcc/potsdam, the registered EPSG:4326 (and EPSG:3857), long/lat with +axis=neu and with +axis=wsu on a 7-parameter datum; set B: three UTM references of which two share a zone on different ellipsoids/datums, EPSG:4326, krovak; set C: Mercator and transverse Mercator pairs that differ only by an omitted +lon_0 / +x_0, EPSG:4326); set D: EPSG:4326, EPSG:3857 and a Mercator with a third, out-of-domain point each - the pole fails towards Mercator, so sequences contain failing calls, repeated failing calls and calls after a failure); results (error or coordinates) must be bit-identical, two (set D: three) points per reference; every call must return what a freshly built transformer from freshly parsed definitions returns when called once; the reference values are recomputed after the sweep to detect changes of the registered globals. E1: structure trees of all eight types x transformers {nil, affine, fail on the k-th call for every k <= Len}: same type and nesting (*Bounds -> 4-vertex polygon), i-th vertex = t(i-th vertex), input unchanged, error returned, no panic. Non-trivial = sequences that call some transformer at least twice or interleave two transformers."
+	rep.Rule = "E2 (stateless, no dedup: closure-captured state cannot be fingerprinted): ALL sequences of up to 4 (thorough 5) operations Build(i,j) / Call(slot, point) over two sets of 5 (6) spatial references parsed once per sequence (set A: 7-parameter tmerc/OSGB36, 3-parameter lcc/potsdam, the registered EPSG:4326 (and EPSG:3857), long/lat with +axis=neu and with +axis=wsu on a 7-parameter datum; set B: three UTM references of which two share a zone on different ellipsoids/datums, EPSG:4326, krovak; set C: Mercator and transverse Mercator pairs that differ only by an omitted +lon_0 / +x_0, EPSG:4326); set D: EPSG:4326, EPSG:3857 and a Mercator with a third, out-of-domain point each - the pole fails towards Mercator, so sequences contain failing calls, repeated failing calls and calls after a failure); results (error or coordinates) must be bit-identical, two (set D: three) points per reference; every call must return what a freshly built transformer from freshly parsed definitions returns when called once; the reference values are recomputed after the sweep to detect changes of the registered globals. E1: structure trees of all eight types x transformers {nil, affine, fail on the k-th call for every k <= Len}: same type and nesting (*Bounds -> 4-vertex polygon), i-th vertex = t(i-th vertex), input unchanged, error returned, no panic; the same with the input cut from one flat vertex buffer (same output, buffer not written, twice), and the output shares no storage with the input. Non-trivial = sequences that call some transformer at least twice or interleave two transformers."
 	// (set, depth) pairs: every sequence up to the depth is enumerated over each set
 	type plan struct {
 		use   []int
@@ -311,6 +311,32 @@ func main() {
 				viol("input-modified", d)
 			}
 		}
+		// memory layout: the input with its vertex slices cut from one flat buffer
+		// (nil and affine transformer, each twice): same output, buffer not
+		// written; and the output must not share storage with the input
+		if sym, det := geomgen.LayoutCheck(g, func(x geom.Geom) string {
+			var o string
+			if p := try(func() {
+				a, e1 := x.Transform(nil)
+				b, e2 := x.Transform(affine)
+				o = fmt.Sprintf("%s %v %s %v", geomgen.Render(a), e1, geomgen.Render(b), e2)
+			}); p != "" {
+				return "panic: " + p
+			}
+			return o
+		}); sym != "" {
+			viol(sym, det)
+		}
+		if out2, e := g.Transform(affine); e == nil {
+			before := geomgen.Render(out2)
+			for _, x := range []geom.Geom{g} {
+				// overwrite every input vertex in place
+				geomgenOverwrite(x)
+			}
+			if after := geomgen.Render(out2); after != before {
+				viol("output-shares-storage-with-input", fmt.Sprintf("output was %s; after the input was overwritten in place it is %s", before, after))
+			}
+		}
 		// fail on the k-th call
 		for k := 1; k <= n; k++ {
 			calls := 0
@@ -407,6 +433,44 @@ func execute(rep *report.Run, seq []op, ref map[[3]int]val, ncalls, nontrivial *
 	}
 	if multi || len(callsPer) > 1 {
 		atomic.AddInt64(nontrivial, 1)
+	}
+}
+
+// geomgenOverwrite sets every vertex stored in g's slices to (7777, -7777) in place.
+func geomgenOverwrite(g geom.Geom) {
+	z := geom.Point{X: 7777, Y: -7777}
+	fill := func(p []geom.Point) {
+		for i := range p {
+			p[i] = z
+		}
+	}
+	switch t := g.(type) {
+	case geom.MultiPoint:
+		fill(t)
+	case geom.LineString:
+		fill(t)
+	case geom.MultiLineString:
+		for _, l := range t {
+			fill(l)
+		}
+	case geom.Polygon:
+		for _, r := range t {
+			fill(r)
+		}
+	case geom.MultiPolygon:
+		for _, p := range t {
+			for _, r := range p {
+				fill(r)
+			}
+		}
+	case geom.GeometryCollection:
+		for _, m := range t {
+			geomgenOverwrite(m)
+		}
+	case *geom.Bounds:
+		if t != nil {
+			t.Min, t.Max = z, z
+		}
 	}
 }
 
